@@ -11,6 +11,7 @@ Line-protocol driver for C12. Every request is `<op> <int> …`; lists are lengt
   rt  <order> <env> <Hatoms> isStart implH mark                    label stored by the reader for a tetrahedron
   wa  n0 n1 n2 n3 <adj1> <adj2> <Hatoms> stored               writer mark of an allene
   ra  n0 n1 n2 n3 <ord1> <ord2> <Hatoms> mark                 label stored by the reader for an allene
+  aw / awh / ws                                               add_wedge (heavy / hydrogen target), __wedge_sign
   rdb endsDistinct shareRing <ringSizes>                      double bond reported as stereogenic (chiral_cis_trans)
 Response: `ok <value>` or `err <PythonExceptionName>`; `bad` for a malformed request line.
 -/
@@ -42,6 +43,19 @@ def parseSct : Nat → List Int → Option (List ((Nat × Nat) × Ends) × List 
     let (tl, rest') ← parseSct k rest
     some (((n.toNat, m.toNat), endsOf n0 n1 n2 n3) :: tl, rest')
   | _, _ => none
+
+def parseTh : Nat → List Int → Option (List (Nat × V2) × List Int)
+  | 0, rest => some ([], rest)
+  | k+1, i :: x :: y :: rest => do
+    let (tl, rest') ← parseTh k rest
+    some ((i.toNat, (x, y)) :: tl, rest')
+  | _, _ => none
+
+def showOpt : Except PyErr (Option Bool) → String
+  | .ok (some true) => "ok 1"
+  | .ok (some false) => "ok 0"
+  | .ok none => "ok none"
+  | .error e => "err " ++ e.name
 
 def handleInts (op : String) (xs : List Int) : Option String :=
   match op with
@@ -123,6 +137,44 @@ def handleInts (op : String) (xs : List Int) : Option String :=
       | [mark] => some (showRes (readerAlleneSign (endsOf n0 n1 n2 n3) a1 a2 (hFun hs) (mark != 0)))
       | _ => none
     | _ => none
+  | "aw" =>
+    -- aw k (id x y)^k  pnx pny  hasH hx hy  m mark
+    match xs with
+    | k :: r => do
+      if k < 0 then none
+      let (th, r) ← parseTh k.toNat r
+      match r with
+      | [px, py, hasH, hx, hy, m, mark] =>
+        some (showOpt (addWedgeHeavy th (px, py) (if hasH != 0 then some (hx, hy) else none) m.toNat mark))
+      | _ => none
+    | [] => none
+  | "awh" =>
+    match xs with
+    | k :: r => do
+      if k < 0 then none
+      let (th, r) ← parseTh k.toNat r
+      match r with
+      | [hx, hy, mark] => some (showOpt (addWedgeToH th (hx, hy) mark))
+      | _ => none
+    | [] => none
+  | "ws" =>
+    -- ws k (id x y)^k pnx pny hasH hx hy <order> <Hatoms> stored
+    match xs with
+    | k :: r => do
+      if k < 0 then none
+      let (th, r) ← parseTh k.toNat r
+      match r with
+      | px :: py :: hasH :: hx :: hy :: r =>
+        let (order, r) ← takeList r
+        let (hs, r) ← takeList r
+        match r with
+        | [st] =>
+          some (match wedgeSign th (px, py) (if hasH != 0 then some (hx, hy) else none) order (hFun hs) (tri st) with
+                | .ok v => s!"ok {v}"
+                | .error e => "err " ++ e.name)
+        | _ => none
+      | _ => none
+    | [] => none
   | "rdb" =>
     match xs with
     | d :: sh :: r => do
